@@ -109,6 +109,7 @@ def my_thumb(d):
     return b64u(hashlib.sha256(txt.encode("utf-8")).digest())
 
 
+PUBLIC = {"EC": ["crv", "x", "y", "kty"], "OKP": ["crv", "x", "kty"], "RSA": ["n", "e", "kty"]}
 ORDERS = ["native", "kty_first", "kty_last", "rev", "sorted", "kid_first"]
 
 
@@ -184,18 +185,26 @@ class H:
             self.tid[my_thumb(e["jwk"])] = len(self.pool)
             self.pool.append(dict(e))
 
-    def build_key(self, spec, order=None):
+    def private_twin(self, key):
+        """the private key object of the same material and kid (for trial verification / decryption and forging)"""
+        if key.is_private:
+            return key
+        return self.build_key((self.mid(key), key.dict_value.get("kid")))
+
+    def build_key(self, spec, order=None, pub=False):
         """spec = (pool index, kid or None); order: member order of the JWK dict the key is imported from.
         RSA objects are cached (import costs 50 ms)."""
         from joserfc.jwk import JWKRegistry
         i, kid = spec
         p = self.pool[i]
         d = dict(p["jwk"])
+        if pub and p["kty"] != "oct":
+            d = {k: d[k] for k in d if k in PUBLIC[p["kty"]]}      # the public-only key (role: recipient / verifier)
         if kid is not None:
             d["kid"] = kid
         if p["kty"] == "RSA":
             order = order if order in ("kty_first", "sorted") else "native"
-            ck = (i, kid, order)
+            ck = (i, kid, order, bool(pub))
             if ck not in self.rsa_objs:
                 self.rsa_objs[ck] = JWKRegistry.import_key(reorder(d, order))
             return self.rsa_objs[ck]
@@ -203,7 +212,8 @@ class H:
 
     def build_keys(self, spec):
         orders = spec.get("orders") or [None] * len(spec["keys"])
-        return [self.build_key(tuple(s), o) for s, o in zip(spec["keys"], orders)]
+        pubs = spec.get("pub") or [False] * len(spec["keys"])
+        return [self.build_key(tuple(s), o, pb) for s, o, pb in zip(spec["keys"], orders, pubs)]
 
     def c_key(self, key):
         kid = key.dict_value.get("kid")
@@ -699,7 +709,8 @@ def check_produced(h, rec, report):
         senders = rec["skeys"] if rec["sdesc"] is not None else [None]
         ids = []
         for k in set_keys:
-            if any(accepts(h, fam, pser, ptok, k, algs, s, payload=_payload_of(spec)) for s in senders):
+            # trial with the private key of the same material (the set may hold public-only keys: JWE encryption)
+            if any(accepts(h, fam, pser, ptok, h.private_twin(k), algs, s, payload=_payload_of(spec)) for s in senders):
                 ids.append(h.mid(k))
         if len(set(ids)) != 1:
             report({"kind": "produced-token-key-not-identifiable", "fam": fam, "ser": ser},
@@ -1182,6 +1193,14 @@ def main_loop(ctx, h, add, report, dist, onepu=False):
         else:
             spec = gen_jws_produce(h) if rng.random() < 0.5 else gen_jwe_produce(h)
         spec["orders"] = gen_orders(rng, len(spec["keys"]))
+        # the role each operation really uses: JWE encryption with the recipients' PUBLIC keys (all or some of the
+        # set public-only), signing with the private set (now and then a public-only member: the algorithm refuses it)
+        r = rng.random()
+        if spec["fam"] == "jwe":
+            p_pub = 1.0 if r < 0.35 else (0.5 if r < 0.65 else 0.0)
+        else:
+            p_pub = 0.4 if r < 0.12 else 0.0
+        spec["pub"] = [h.pool[sp[0]]["kty"] != "oct" and rng.random() < p_pub for sp in spec["keys"]]
         if spec.get("sender"):
             spec["sender"]["orders"] = gen_orders(rng, len(spec["sender"]["keys"]))
         try:
@@ -1236,6 +1255,18 @@ def scenario(ctx, h, add, report, dist, spec):
         add(entry_case(h, rec, [0] * n), ("produce-%s-%s" % (fam, ser), "mode=%s src=%s" % (spec["mode"], spec["src"]), spec, pool_ids(spec)))
         if rec["out"][0] == "err":
             e = rec["out"][1]
+            hd0 = merged(rec["pre"][0])
+            et0 = expected_types(hd0.get("alg")) if isinstance(hd0.get("alg"), str) else None
+            if spec["src"] == "set" and spec["mode"] != "bykid" and not hd0.get("kid") and et0 and not spec.get("sender") \
+                    and any(k.key_type in et0 for k in rec["keys"]) and isinstance(e, ValueError) and str(e) == "Invalid key":
+                # the pick must not depend on anything but the key type (a recipient key is a PUBLIC key)
+                report({"kind": "produce-no-key-picked", "fam": fam, "ser": ser},
+                       "no kid, alg %s: the set has keys of the required type %s (%s) but the call failed with %r" % (
+                           hd0.get("alg"), et0, [(k.key_type, "private" if k.is_private else "public-only") for k in rec["keys"]], e), spec)
+            picked = [g["keyobj"] for g in rec["log"] if g["fn"] == "guess" and g["res"][0] == "ok" and "keyobj" in g]
+            if fam == "jws" and picked and not picked[-1].is_private and (isinstance(e, InvalidKeyIdError) or str(e) == "Invalid key"):
+                report({"kind": "sign-with-public-key-error", "ser": ser},
+                       "a public-only key was selected for signing: the error must come from the algorithm, got %r" % (e,), spec)
             # direct: a key set as source, a (truthy, string) kid that no key has -> InvalidKeyIdError
             if spec["src"] == "set" and spec["mode"] != "bykid" and fam == "jwe":
                 hd = merged(rec["pre"][0])
@@ -1353,12 +1384,13 @@ def keyset_level(ctx, h, add, report, spec, kset):
         if et is not None and r[0] == "ok":
             if r[1] is None:
                 if any(k.key_type in et for k in keys):
-                    report({"kind": "pick-none"}, "pick_random_key(%r) found no key although the set has a %s key" % (alg, et), spec, {"alg": alg})
+                    report({"kind": "pick-none"}, "pick_random_key(%r) found no key although the set has a %s key (keys: %s)" % (
+                        alg, et, [(k.key_type, "private" if k.is_private else "public-only") for k in keys]), spec, {"alg": alg})
             elif r[1].key_type not in et or all(r[1] is not k for k in keys):
                 report({"kind": "pick-wrong-type", "alg": alg}, "pick_random_key(%r) returned a %s key" % (alg, r[1].key_type), spec, {"alg": alg})
     # export / import
     if rng.random() < 0.6:
-        exp = call(kset.as_dict, private=True)
+        exp = call(kset.as_dict, private=True if all(k.is_private for k in keys) else None)
         if exp[0] != "ok":
             report({"kind": "export-raises"}, "KeySet.as_dict(private=True) raised %r" % (exp[1],), spec)
             return
@@ -1482,9 +1514,6 @@ def public_roundtrip(h, rec, used, token, report, add):
     if pub2 is None:
         return
     consume_with(pub2, "public JWKS of the same keys built from the key material (other member order)")
-
-
-PUBLIC = {"EC": ["crv", "x", "y", "kty"], "OKP": ["crv", "x", "kty"], "RSA": ["n", "e", "kty"]}
 
 
 def independent_public_set(h, rec, report):
@@ -1625,7 +1654,7 @@ def forged_consume(ctx, h, add, report, spec, rec):
                     if "header" in where:
                         hdr["kid"] = where["header"]
                     members.append((prot or None, hdr if (hdr or rng.random() < 0.2) else None))
-            tk = call(forge_jws, h, fkey, alg, fser, members, payload)
+            tk = call(forge_jws, h, h.private_twin(fkey), alg, fser, members, payload)
             if tk[0] != "ok":
                 continue
             token = tk[1]
